@@ -530,6 +530,7 @@ def check_history(d, recs, fresh=None):
             tsc_last = win
         if k == "tsci":
             tsc_last = None
+            tsc_ok = True
         # -- query-derived facts: nothing obtained while disabled survives enable_queries() ----
         table = {"gnv": ("gnv", "get_terminal_name_version"), "iok": ("iok", "TextImage._is_on_kitty"),
                  "ksup": ("ksup", "KittyImage.is_supported"), "isup": ("isup", "ITerm2Image.is_supported")}
@@ -546,7 +547,11 @@ def check_history(d, recs, fresh=None):
                 fails.append(Failure(f"stale/{name}/queries-disabled", f"op {i}: {name}() = {val}, fresh {on} / {off}"))
         # -- bookkeeping ------------------------------------------------------------------------
         if eff:
+            # `toggles_invalidate` needs no proviso: whatever happened before (including a pixel-size
+            # change nobody was required to notice), the first read after an effective toggle must be a
+            # fresh computation — a pixel-size change that coincides with a toggle has to be noticed.
             last_read = None
+            proviso = True
             cause = {"swon": "enable_win_size_swap", "swoff": "disable_win_size_swap", "qon": "enable_queries"}[k]
             if k == "qon":
                 for key in list(body_runs):
@@ -771,10 +776,17 @@ TOGGLES = [("swon",), ("swoff",), ("qon",), ("qoff",)]
 
 def gen_history(rng):
     shape = rng.choice(["random", "random", "toggle-stale", "enable-discards", "aba", "ratio", "font-change",
-                        "support", "decorators"])
+                        "support", "decorators", "toggle-coincident", "toggle-coincident"])
     flavour = rng.choice([None, None, "kitty", "konsole", "iterm2"])
     term = gen_term(rng, flavour)
     px_mode = rng.choice(["ioctl", "ioctl", "none", "none", "tiny", "half"])
+    if shape == "toggle-coincident":
+        # a *successful* cell size must get cached first: pixels from the ioctl, or from a query reply
+        px_mode = rng.choice(["ioctl", "none"])
+        if px_mode == "none":
+            term.update(ansCell=rng.random() < 0.6, ansArea=True)
+        else:
+            term.update(ioctlFail=False)
     win_by_cells = {}
 
     def win_for(cells=None, fresh_px=False):
@@ -802,6 +814,25 @@ def gen_history(rng):
         if rng.random() < 0.5:
             ops += [("rs", win_for(win[:2], fresh_px=True))]
         ops += [("gcs",), ("gcr",), rng.choice(TOGGLES), ("gcs",)]
+    elif shape == "toggle-coincident":
+        # read; [toggle that will be undone]; pixel size changes at unchanged cols/rows with NO read in
+        # between; an effective toggle; read again (cell size, DYNAMIC ratio, FIXED snapshot)
+        if rng.random() < 0.3:
+            ops += [rng.choice([("sr", "dynamic"), ("sr", "fixed")])]
+        ops += [rng.choice([("gcs",), ("gcr",), ("gcs",)]), ("gcs",)]
+        tog = rng.choice(["q", "q", "q", "swon", "swoff"])
+        if tog == "q":
+            ops += [("qoff",)]
+            if rng.random() < 0.3:
+                ops += [("gcs",)]  # a hit on the cached value while disabled, before the change
+        elif tog == "swoff":
+            ops += [("swon",), ("gcs",)]
+        for _ in range(rng.randrange(1, 3)):
+            ops += [("rs", win_for(win[:2], fresh_px=True))]
+            if rng.random() < 0.3:
+                ops += [rng.choice([("gnv",), ("gco", "0"), ("pr", 0), ("iok",)])]  # reads of other facts are fine
+        ops += [{"q": ("qon",), "swon": ("swon",), "swoff": ("swoff",)}[tog]]
+        ops += [rng.choice([("gcs",), ("gcr",), ("sr", "dynamic"), ("sr", "fixed")]), ("gcs",), ("gcr",)]
     elif shape == "enable-discards":
         ops += [("qoff",)] + [rng.choice(GETS + [some_ratio()]) for _ in range(rng.randrange(1, 6))]
         ops += [("qon",)] + [rng.choice(GETS + [some_ratio()]) for _ in range(rng.randrange(1, 8))]
@@ -1051,6 +1082,23 @@ class C15(Property):
         out, seen = [], set()
         alphabet = [("qoff",), ("qon",), ("swon",), ("gcs",), ("gnv",), ("iok",), ("ksup",), ("isup",), ("gco", "0"),
                     ("sr", "dynamic"), ("gcr",), ("rs", (80, 30, 0, 0, 9, 18, 720, 540))]
+        # targeted: a pixel-size change at unchanged cols/rows that coincides with an effective toggle
+        tterm = gen_term(random.Random(7), "kitty")
+        tterm.update(ioctlFail=False, ansCell=True, ansArea=True, termux=False, da1=True)
+        for w0, w1 in (((80, 30, 800, 600, 10, 20, 800, 600), (80, 30, 720, 540, 9, 18, 720, 540)),
+                       ((80, 30, 0, 0, 10, 20, 800, 600), (80, 30, 0, 0, 9, 18, 720, 540))):
+            for pre, tog in (([("qoff",)], ("qon",)), ([], ("swon",)), ([("swon",), ("gcs",)], ("swoff",))):
+                for reads in ([("gcs",)], [("sr", "dynamic"), ("gcr",)], [("sr", "fixed"), ("gcr",)]):
+                    ops = [("gcs",)] + pre + [("rs", w1), tog] + reads
+                    d = dict(term=tterm, win=w0, ops=ops)
+                    for f in check_history(d, run_history(d)):
+                        if f.key not in seen:
+                            seen.add(f.key)
+                            f.case = Case(history_line(d), dict(term=tterm, win=list(w0),
+                                                                ops=[[o[0], list(o[1])] if o[0] == "rs" else list(o) for o in ops]))
+                            out.append(f)
+        if out:
+            return out
         for flavour in ("kitty", "iterm2", "konsole"):
             term = gen_term(random.Random(7), flavour)
             term.update(ioctlFail=False, ansCell=True, ansArea=True, termux=False, da1=True)
